@@ -251,12 +251,16 @@ def rel_die(rng, d):
     return out
 
 
-def die_grid_family(rng, P):
+def die_grid_family(rng, P, large=False):
     """dies over ONE grid of cut coordinates whose occupied cells differ minimally: a base pattern, every pattern
     obtained by moving one occupied cell, by occupying / freeing one cell, the complement, and the same patterns with
-    adjacent cells merged into one region or given as fixed rectangles of a netlist"""
+    adjacent cells merged into one region or given as fixed rectangles of a netlist.
+    large: grids of more than 32 / 64 cells whose patterns differ in the LAST cells only (an occupancy mask cut to a
+    machine word, one hex digit per cell ...); such dies are compared by digest, not against the Coq model (cost)"""
     nrows, ncols = rng.choice([(2, 3), (2, 3), (2, 4), (3, 4), (1, 3), (2, 5), (3, 5), (3, 2), (4, 2), (3, 3), (2, 2),
                                (4, 3), (1, 5), (4, 5), (2, 6)])
+    if large:
+        nrows, ncols = rng.choice([(5, 7), (6, 11), (9, 8), (3, 22), (4, 17), (7, 5), (17, 4)])
     q = rng.choice([F(1, 4), F(1, 2), F(1)])
     xs, ys = [F(0)], [F(0)]
     for _ in range(ncols):
@@ -271,24 +275,38 @@ def die_grid_family(rng, P):
 
     base = None
     for _ in range(200):
-        k = rng.randrange(1, max(2, min(len(cells) - 1, 5) + 1))
-        occ = frozenset(rng.sample(cells, k))
-        if complete(occ):
+        if large:
+            occ = frozenset(c for c in cells if rng.random() < 0.45)
+        else:
+            k = rng.randrange(1, max(2, min(len(cells) - 1, 5) + 1))
+            occ = frozenset(rng.sample(cells, k))
+        if complete(occ) and len(occ) < len(cells):
             base = occ
             break
     if base is None:
         base = frozenset(cells[:-1]) if len(cells) > 1 else frozenset(cells)
     pats = [("base", base)]
-    for c in sorted(base):
-        for e in cells:
+    # (large grids: only the cells beyond the 32nd / 64th change - in row-major numbering for one half of the
+    # patterns, in column-major numbering for the other half)
+    lim = 0 if not large else (64 if len(cells) > 70 else 32)
+    highs = [cells] if not large else [[c for c in cells if c[1] * ncols + c[0] >= lim],
+                                       [c for c in cells if c[0] * nrows + c[1] >= lim]]
+    for high in highs:
+        sub = []
+        for c in sorted(base):
+            for e in high:
+                if e not in base and c in high:
+                    sub.append(("cellmove", base - {c} | {e}))
+        for e in high:
             if e not in base:
-                pats.append(("cellmove", base - {c} | {e}))
-    for e in cells:
-        if e not in base:
-            pats.append(("celladd", base | {e}))
-    for c in sorted(base):
-        if len(base) > 1:
-            pats.append(("celldrop", base - {c}))
+                sub.append(("celladd", base | {e}))
+        for c in sorted(base):
+            if len(base) > 1 and c in high:
+                sub.append(("celldrop", base - {c}))
+        if large:
+            rng.shuffle(sub)
+            sub = sub[:8]
+        pats += sub
     comp = frozenset(cells) - base
     if comp:
         pats.append(("complement", comp))
@@ -317,7 +335,10 @@ def die_grid_family(rng, P):
         bx, fx = split_fixed(rng, xs, ys, rects, tags, 0.5 if mode < 0.15 else 0.0)
         if rng.random() < 0.3:
             rng.shuffle(bx)
-        out.append(tag(die_design(W, H, bx, fx, "robust", refine=fam_refine), "grid:" + n))
+        m = tag(die_design(W, H, bx, fx, "robust", refine=fam_refine), "grid:" + n)
+        if large and m["stream"] == "exact":
+            m["stream"] = "exact-large"
+        out.append(m)
     return out
 
 
@@ -559,6 +580,9 @@ def rel_netlist(rng, d):
     if "text" in op:
         txt = op["text"]
         nums = list(re.finditer(r"(?<![\w.])\d+(\.\d+)?(?![\w.])", txt))
+        for m in ([nums[-1], nums[len(nums) // 2]] if len(nums) > 40 else []):
+            # a long text: the difference lies far behind its beginning
+            out.append(mk({"k": "netlist", "text": txt[:m.start()] + "7.25" + txt[m.end():]}, "onefield"))
         for _ in range(3):
             if nums:
                 m = rng.choice(nums)
